@@ -230,6 +230,20 @@ prop('C03',
   "Not decided: truth of matching for particular values (prefix arithmetic in inNetwork, wildcards x frames product), prerequisite semantics.",
   "custom AST/CFG checker: exhaustiveness vs a data table, path-sensitive reachability under protocol environments vs a spec extraction table, ownership of the sorted list, ordered-insert idiom recognition, constant evaluation over all wildcard bits", "DESIGN.md 5/C03")
 
+prop('C14',
+  "Static analysis of /repo's current source (partial property): decides structural necessary conditions - for every protocol class of "
+  "pox/lib/packet with a struct-based parse()/hdr() pair, each field named on both sides sits at the same byte offset with the same width "
+  "and struct code (signedness) and both sides agree on the fixed header size; bit-fields: the word hdr() packs from the fields (constant "
+  "propagation through hdr()'s control flow) is inverted by parse()'s extraction expressions on a sample domain derived from the "
+  "extraction masks (ipv4 vhl/flags+frag, tcp off/res, vlan pcp/cfi/id, ipv6 version/class/label, mpls, gre ...); length and checksum "
+  "fields are assigned in hdr() before the pack, lengths from the payload length; checksums are computed over a copy of the header with "
+  "literal 0 in the checksum slot at the same index; UDP/TCP skip words equal (pseudo-header size + checksum offset)/2 from the formats; "
+  "checksum() mixes no str with bytes, pads an odd trailing byte as bytes under the odd-length guard, folds the carry twice (or in a loop) "
+  "and returns the 16-bit one's complement; the TCP option walker admits a single remaining byte. Decides these conditions, not numeric "
+  "checksum results or value round trips.",
+  "Not decided: numeric correctness of the one's-complement sum, value round trips, option/TLV encoders (DNS, DHCP, ND options) beyond header formats.",
+  "custom AST checker: parse/hdr byte-layout comparison, constant evaluation of bit-field pack/extract expressions over a sample domain, must-precede ordering, format arithmetic, bytes/str typing", "DESIGN.md 5/C14")
+
 NOT_APPLICABLE = {
   'C16': "Address types: the statement is about numeric/textual agreement over the whole address domain (byte order, mask arithmetic, CIDR parsing, zero-run compression, round trips, rejection of malformed text) - results of computations on runtime values; no shape-level rule is a necessary and telling condition for it (DESIGN.md section 7).",
 }
